@@ -63,9 +63,15 @@ func PeriodEmission(p Period, s, T time.Time) *big.Rat {
 		if now.Before(s) {
 			return zero
 		}
-		passed := int64(now.Sub(s))
+		// elapsed nanoseconds as a big integer: a time.Duration saturates after ~292 years
+		passedBig := ElapsedNs(s, now)
+		stepBig := big.NewInt(int64(p.Step))
+		nBig, inStepBig := new(big.Int).QuoRem(passedBig, stepBig, new(big.Int))
+		if !nBig.IsInt64() || nBig.Int64() > 50_000_000 {
+			panic("model: step count out of the explored range")
+		}
+		n := nBig.Int64()
 		step := int64(p.Step)
-		n := passed / step
 		// 1024-bit floats: relative error 2^-1023 per operation, i.e. far below
 		// the 1e-6 ambiguity band used for configurations with exponential
 		// periods; exact rationals would grow 18 digits per step.
@@ -82,8 +88,7 @@ func PeriodEmission(p Period, s, T time.Time) *big.Rat {
 		if n > 0 {
 			cur.Mul(cur, mult)
 		}
-		inStep := passed - n*step
-		frac := new(big.Float).SetPrec(prec).SetRat(new(big.Rat).SetFrac(big.NewInt(inStep), big.NewInt(step)))
+		frac := new(big.Float).SetPrec(prec).SetRat(new(big.Rat).SetFrac(inStepBig, big.NewInt(step)))
 		sum.Add(sum, new(big.Float).SetPrec(prec).Mul(cur, frac))
 		out, _ := sum.Rat(nil)
 		return out
@@ -158,4 +163,10 @@ func (s Schedule) Boundaries(horizon time.Time, maxSteps int) []time.Time {
 		start = *p.End
 	}
 	return out
+}
+
+// ElapsedNs is b - a in nanoseconds, exact for any two instants.
+func ElapsedNs(a, b time.Time) *big.Int {
+	d := new(big.Int).Mul(big.NewInt(b.Unix()-a.Unix()), big.NewInt(1_000_000_000))
+	return d.Add(d, big.NewInt(int64(b.Nanosecond()-a.Nanosecond())))
 }
